@@ -11,6 +11,7 @@ import RsslVerif.Lemmas.LiteralText
 Every statement below is about `Gen.FmtTables` / `Gen.ParseTables`, re-extracted from
 `formatter.rs`, `parser/expressions.rs`, `lexer.rs`, `tokens.rs` on every run.
 -/
+set_option linter.unusedSimpArgs false
 namespace RsslVerif.Thm.C09
 open RsslVerif.Gen.FmtTables RsslVerif.Gen.ParseTables RsslVerif.Model.Format RsslVerif.Model.Parse
 open RsslVerif.Lemmas.FmtParseTables RsslVerif.Lemmas.Roundtrip RsslVerif.Spec.Roundtrip
